@@ -98,9 +98,9 @@ def apply_unified_diff(src: Source, diff_text: str) -> Dict[str, str]:
         trail += 1
       found = None
       shift = 0
+      combos = sorted(((dl, dt) for dl in range(lead + 1) for dt in range(trail + 1)), key=lambda p: (p[0] + p[1], p))
       for modulo_ws in (False, True):
-        for fuzz in range(0, max(lead, trail) + 1):
-          dl, dt = min(fuzz, lead), min(fuzz, trail)
+        for dl, dt in combos:
           sub = body[dl:len(body) - dt] if dt else body[dl:]
           want = [l[1:] for l in sub if l[:1] in (' ', '-')]
           f = _locate(old_lines, want, tgt + dl, pos, modulo_ws)
